@@ -43,6 +43,41 @@ fn copy_paths(c: &mut Ctx, rng: &mut Rng) {
         }
         crate::validate::check_safety(&m.verif_dump(), "copy_paths");
     }
+    // the constructors: none of them allocates before an element or a capacity is given
+    {
+        let a0 = crate::ckalloc::counters().allocs;
+        let e1: hashbrown::HashMap<B6, B2, hashbrown::DefaultHashBuilder, CkAlloc> = hashbrown::HashMap::new_in(CkAlloc);
+        let e2: hashbrown::HashMap<B6, B2, hashbrown::DefaultHashBuilder, CkAlloc> = hashbrown::HashMap::with_capacity_in(0, CkAlloc);
+        let e3: hashbrown::HashSet<B6, hashbrown::DefaultHashBuilder, CkAlloc> = hashbrown::HashSet::new_in(CkAlloc);
+        let e4: hashbrown::HashSet<B6, hashbrown::DefaultHashBuilder, CkAlloc> = hashbrown::HashSet::with_capacity_in(0, CkAlloc);
+        let _ = (e1.allocator(), e3.allocator(), e1.capacity(), e2.capacity(), e4.capacity());
+        crate::check!(crate::ckalloc::counters().allocs == a0, "new_in / with_capacity_in(0) allocated");
+        let mut w: hashbrown::HashMap<B6, B2, hashbrown::DefaultHashBuilder, CkAlloc> = hashbrown::HashMap::with_capacity_in(10, CkAlloc);
+        crate::check!(w.capacity() >= 10 && crate::ckalloc::counters().allocs == a0 + 1, "with_capacity_in(10): capacity {} after {} allocations", w.capacity(), crate::ckalloc::counters().allocs - a0);
+        w.insert(B6::make(1, 0), B2::make(2, 0));
+        let mut g1: hashbrown::HashMap<B6, B2> = hashbrown::HashMap::new();
+        let mut g2: hashbrown::HashMap<B6, B2> = hashbrown::HashMap::with_capacity(5);
+        let mut g3: hashbrown::HashMap<B6, B2, PlanBH> = hashbrown::HashMap::with_capacity_and_hasher(5, bh);
+        let mut g4: hashbrown::HashSet<B6> = hashbrown::HashSet::new();
+        let mut g5: hashbrown::HashSet<B6> = hashbrown::HashSet::with_capacity(5);
+        let mut g6: hashbrown::HashSet<B6, PlanBH> = hashbrown::HashSet::with_capacity_and_hasher(5, bh);
+        let mut t1: hashbrown::HashTable<B6> = hashbrown::HashTable::new();
+        let mut t2: hashbrown::HashTable<B6> = hashbrown::HashTable::with_capacity(5);
+        crate::check!(g1.capacity() == 0 && g4.capacity() == 0 && t1.capacity() == 0 && g2.capacity() >= 5 && g3.capacity() >= 5 && g5.capacity() >= 5 && g6.capacity() >= 5 && t2.capacity() >= 5, "constructor capacities");
+        for i in 0..20u32 {
+            g1.insert(B6::make(i, 0), B2::make(i, 0));
+            g2.insert(B6::make(i, 0), B2::make(i, 0));
+            g3.insert(B6::make(i, 0), B2::make(i, 0));
+            g4.insert(B6::make(i, 0));
+            g5.insert(B6::make(i, 0));
+            g6.insert(B6::make(i, 0));
+            t1.insert_unique(i as u64, B6::make(i, 0), |e| e.id() as u64);
+            t2.insert_unique(i as u64, B6::make(i, 0), |e| e.id() as u64);
+        }
+        crate::check!(g1 == g2 && g1.len() == 20 && g3.len() == 20 && g4 == g5 && g6.len() == 20 && t1.len() == 20 && t2.len() == 20, "collections built through the plain constructors disagree");
+        let _ = t1.allocator();
+        c.evaluations += 1;
+    }
     // From<[(K, V); N]> (default hasher): repeated keys keep the last value
     let arr = [(B6::make(1, 0), B2::make(10, 0)), (B6::make(2, 0), B2::make(20, 0)), (B6::make(1, 0), B2::make(30, 0)), (B6::make(3, 0), B2::make(40, 0))];
     let f: hashbrown::HashMap<B6, B2, hashbrown::DefaultHashBuilder, CkAlloc> = hashbrown::HashMap::from(arr);
